@@ -26,6 +26,8 @@ def run(rep, tier):
     H.r_evt_sort(rep, hc)
     H.r_obs_flags(rep, hc)
     H.r_prev_update(rep, hc)
+    rep.rule("R-EVT-LOOP", "the detection loop examines every event function 0..n_events (no break/continue/return skipping an index): an earlier event of another function is found even when a terminal one fires in the same step")
+    H.r_evt_loop_one(rep, hc)
     H.r_teval_before_interrupt(rep, hc)
     H.r_teval_window(rep, hc)
     rep.rule("R-DIR-MIRROR", "every `if forward { A } else { B }` comparison pair of time points in the handler is symmetric under time reflection")
